@@ -1,9 +1,15 @@
 from checklib.registry import generic, COMMON_NOTE
+from checklib import steps
 
-CHECK = generic("C16", [dict(harness="slices", area="slices")])
+CHECK = generic("C16", [dict(harness="slices", area="slices")], pregen=steps.pregen_slicego)
 
 MANIFEST = dict(
-    text=("Theorems in Lean 4 (Ekit/Props/C16.lean, 52 theorems) about literal models of every anchored function "
+    text=("Props/C16SL.lean: internal/slice/{add,delete,shrink}.go are translated on every run (harness/minigosl) into a deep embedding whose "
+          "interpreter has Go's aliasing slices (backing arrays, in-place append, runtime-chosen capacity on reallocation, bounds panics); the "
+          "interpreter running the translation is proved to compute the value-level models sliceAdd / sliceDelete / sliceShrink that the theorems "
+          "below are about, including where the result lives and what the argument's array holds afterwards (c16_sl_add_refines, "
+          "c16_sl_delete_refines, c04_sl_shrink_refines); the translated functions are run against the real ArrayList on every lists trace (area "
+          "slptr under C04). Theorems in Lean 4 (Ekit/Props/C16.lean, 52 theorems) about literal models of every anchored function "
           "(Ekit/Model/Slices.lean, SlicesKV.lean; internal/slice Add/Delete shared with C04): for every input, every map-iteration "
           "order and every enumeration of a result map, UnionSet/IntersectSet/DiffSet/SymmetricDiffSet return exactly the required "
           "set without duplicates and ContainsAny/All are the quantifier statements; with == the quadratic Func variants return one "
